@@ -18,7 +18,7 @@ RULES = {
             "arguments only (no terminal/ambient/receiver state outside the key) and no caller mutates its result in place",
     "R1": "once-flag: RenderData.finalize calls _finalize_render_data_ only under `not self.finalized` and sets the flag in a finally; "
           "__del__ only delegates to finalize; RenderIterator.close does everything under `if not self._closed`, sets _closed last and "
-          "finalizes the data only under _finalize_data",
+          "finalizes the data only under _finalize_data; the store of the closed flag is dominated by the finalize decision on every path, exceptional ones included (not in a `finally`)",
     "R2": "every creation is finalized or handed over: after `_get_render_data_()` in _init_render_, every exit - normal with finalize=True, "
           "and every exceptional exit whatever the flag - has passed render_data.finalize(); callers passing finalize=False discharge the "
           "obligation: draw() finalizes on every exit after the call; RenderIterator.__init__ does nothing that can fail between obtaining the "
